@@ -11,7 +11,7 @@ import (
 )
 
 func init() {
-	probeNames["C16"] = []string{"bitflip", "tear_over_old", "tear_zero", "zeroed", "scribble", "outside_header", "both_damaged", "damaged_newest", "damaged_older", "still_valid_skipped", "txid_wrap", "slot0_newest", "slot1_newest"}
+	probeNames["C16"] = []string{"bitflip", "tear_over_old", "tear_zero", "zeroed", "scribble", "field", "outside_header", "both_damaged", "damaged_newest", "damaged_older", "still_valid_skipped", "txid_wrap", "slot0_newest", "slot1_newest"}
 	register(&PropDef{
 		ID: "C16", Level: "fault_enumeration", QuickSec: 55, ThoroSec: 1200,
 		Rule: "each run = one seeded committed history (all page sizes, some re-based to txids around 2^64 and 2^63); after a seeded commit n an image is taken (S_n and S_{n-1} both intact). Evaluations = damaged images opened by the real engine: for each of the two header slots all 672 single-bit flips of the 84 header bytes, all byte-prefix tears (prefix of the slot content followed by the slot's previous content, and followed by zeros), zeroed slot, 64 random multi-byte scribbles (thorough; 24 quick), bit flips in the rest of the header page (must change nothing), and sampled pairs with both slots damaged. Oracle: newest slot damaged => Open succeeds and state == S_{n-1} (by header txid and full content); older slot damaged => S_n; damage outside the 84 bytes => S_n; both damaged => Open returns an error; never a panic. A damaged slot that still validates (checksum collision or no-op tear) is skipped and counted. Non-trivial = damaged image whose damaged slot no longer validates; distinct = (run, slot, kind, offset, bit/len).",
@@ -227,6 +227,30 @@ func c16Body(e *Env) {
 		for i := 0; i < 16; i++ {
 			eval(&Damage{Slot: slot, Kind: "outside", Off: headerSize + drng.Intn(ps-headerSize), Bit: drng.Intn(8)})
 		}
+		// field-aware damage: plausible-looking values in single header fields
+		// (other power-of-two page sizes, neighbouring txids, other limits...)
+		le32 := func(v uint32) []byte { b := make([]byte, 4); binary.LittleEndian.PutUint32(b, v); return b }
+		le64 := func(v uint64) []byte { b := make([]byte, 8); binary.LittleEndian.PutUint64(b, v); return b }
+		for sh := uint(0); sh < 32; sh++ {
+			eval(&Damage{Slot: slot, Kind: "field", Off: 8, Bytes: le32(1 << sh)}) // page size
+		}
+		for _, v := range []uint32{0, 1023, 1025, 0xFFFFFFFF, uint32(ps) + 1, uint32(ps) - 1} {
+			eval(&Damage{Slot: slot, Kind: "field", Off: 8, Bytes: le32(v)})
+		}
+		otherTx := binary.LittleEndian.Uint64(img[(1-slot)*ps+32:])
+		for _, v := range []uint64{0, 1, ^uint64(0), 1 << 63, otherTx, otherTx + 1, otherTx - 1, otherTx + 2} {
+			eval(&Damage{Slot: slot, Kind: "field", Off: 32, Bytes: le64(v)}) // txid
+		}
+		for _, v := range []uint64{0, 1 << 16, 1 << 20, ^uint64(0), uint64(len(img))} {
+			eval(&Damage{Slot: slot, Kind: "field", Off: 12, Bytes: le64(v)}) // max size
+		}
+		for _, off := range []int{24, 40, 48, 56, 64, 72} { // root, freelist, wal, end markers, meta total
+			for _, v := range []uint64{0, 2, 1 << 20, ^uint64(0)} {
+				eval(&Damage{Slot: slot, Kind: "field", Off: off, Bytes: le64(v)})
+			}
+		}
+		eval(&Damage{Slot: slot, Kind: "field", Off: 0, Bytes: le32(fileMagic + 1)})
+		eval(&Damage{Slot: slot, Kind: "field", Off: 4, Bytes: le32(2)})
 	}
 	for i := 0; i < 24 && !e.Failed(); i++ {
 		mk := func(slot int) *Damage {
@@ -269,7 +293,7 @@ func applyDamage(img, prev []byte, ps int, dm *Damage) {
 		for i := 0; i < headerSize; i++ {
 			h[i] = 0
 		}
-	case "scribble":
+	case "scribble", "field":
 		copy(h[dm.Off:], dm.Bytes)
 	}
 	if dm.Slot2 != nil {
